@@ -1004,10 +1004,21 @@ def k6_cli(i: int) -> bool:
     if c.get('oracle_bug'):
         exp = g.MISTAKE  # seeded oracle error: every mutant is claimed to be a mistake
     case, first, use_line = g.case_text(phase, text, act, use=use)
+    import os
+    if 'VSYM_DEBUG' in os.environ:
+        from exactly_lib.util import traceback_
+        import traceback
+
+        def tb():
+            x = traceback.format_exc()
+            with open(os.environ['VSYM_DEBUG'], 'a') as f:
+                f.write('TRACEBACK ' + x + '\n')
+            return x
+        traceback_.traceback_as_str = tb
     r = cli.run_cli(case)
-    import os, sys
-    if os.environ.get('VSYM_DEBUG'):
-        sys.stderr.write('DEBUG %r %r %r\n%s\n' % (i, r['rc'], r['exc'], r['stderr']))
+    if 'VSYM_DEBUG' in os.environ:
+        with open(os.environ['VSYM_DEBUG'], 'a') as f:
+            f.write('DEBUG %r %r %r\n%s\n%s\n' % (lo, r['rc'], r['exc'], text, r['stderr']))
     if not documented_outcome(r):
         return ob.post(False)
     ident, err = r['ident'], r['stderr']
